@@ -322,7 +322,7 @@ pub fn run_check(a: &CheckArgs) -> i32 {
     let rule = format!(
         "Each evaluation is one complete simulated execution of a scenario generated from (VERIF_SEED, run index) by the families listed under `families`: \
          scenario shape, programs, scheduling strategy, stalls and injected faults all come from that one number. An execution counts as non-trivial iff it ran to completion, \
-         had at least one preemption of a thread inside a queue API call, and at least one contention event seen by the runtime (failed CAS, contended lock, or a Full / Empty / pin-conflict / commit-retry / task-parked branch taken){}; a sequential-engine run is non-trivial iff it completed and executed at least 5 calls against the model. \
+         had at least one preemption of a thread inside a queue API call, and at least one contention event seen by the runtime (failed CAS, contended lock, or a Full / Empty / pin-conflict / commit-retry / task-parked branch taken){}; a sequential-engine run is non-trivial iff it completed and at least 3 of its calls were really executed against the model (calls that are invalid in the reached state are skipped). \
          distinct_nontrivial counts distinct values of hash(scenario digest, interleaving digest = sequence of (task, operation kind) at every scheduling point, history digest) among the non-trivial executions.",
         props::nontrivial_extra(prop)
     );
